@@ -223,7 +223,8 @@ inductive Disp (H : Int → Int) (q : Party) (l : Nat) (msg : Msg) : Party → S
       (hd : (aGet q.dbar msg.tag = none ∧
               p3 = { readyPost q l msg with dbar := aSet q.dbar msg.tag msg.payload }) ∨
             (aGet q.dbar msg.tag = some msg.payload ∧ p3 = readyPost q l msg))
-      (hfoo : (match aGet q.mbar msg.tag with | none => 0 | some mb => H mb) = msg.payload) :
+      (hfoo : (aGet q.mbar msg.tag = none ∧ msg.payload = 0) ∨
+              (∃ mb, aGet q.mbar msg.tag = some mb ∧ H mb = msg.payload)) :
       Disp H q l msg (deliverOrBuffer p3 msg []).party (deliverOrBuffer p3 msg []).sent
         (deliverOrBuffer p3 msg []).out
   /-- an r-answer with the agreed digest while the stored payload does not match -/
@@ -320,9 +321,528 @@ theorem dispatch_cases (H : Int → Int) (T : Tag → Int) (q : Party) (sent0 : 
       · rw [if_pos hlen]
         exact ⟨_, [], .idle, .minor _ [] (SameCore.mkEcho q l msg.tag) (by simp), rfl⟩
       · rw [if_neg hlen]
-        trace_state
-        sorry
+        by_cases hq : (cntInc q.eD (msg.tag, msg.payload)).2 = q.n - q.t ∧
+            (cntTouch q.rD (msg.tag, msg.payload)).2 ≤ q.t
+        · rw [if_pos hq]
+          refine ⟨_, _, .idle, .echoCount wf hE hf0 _ (Or.inr ⟨rfl, ?_⟩), rfl⟩
+          rw [← cntInc_snd]; exact hq.1
+        · rw [if_neg hq]
+          exact ⟨_, _, .idle, .echoCount wf hE hf0 _ (Or.inl rfl), rfl⟩
   rw [if_neg hE]
-  sorry
+  by_cases hR : msg.action = rReady
+  · rw [if_pos hR]
+    by_cases hf : fHas q.ready l msg.tag = true
+    · simp only [hf, Bool.not_true, Bool.false_eq_true, if_false]; exact minorRefl
+    · have hf0 : fHas q.ready l msg.tag = false := by simpa using hf
+      simp only [hf0, Bool.not_false, if_true]
+      by_cases hlen : ioLen msg.payload > 2 * ioLen (T msg.tag)
+      · rw [if_pos hlen]
+        exact ⟨_, [], .idle, .minor _ [] (SameCore.mkReady q l msg.tag) (by simp), rfl⟩
+      · rw [if_neg hlen]
+        have hreq : ∀ x ∈ List.map (fun i => (i, (⟨msg.id, msg.sender, msg.seq, rRequest,
+            msg.payload⟩ : Msg))) (List.range (2 * q.t + 1)), x.2.action = rRequest := by
+          intro x hx
+          obtain ⟨i, _, rfl⟩ := List.mem_map.1 hx
+          rfl
+        by_cases hq : q.t > 0 ∧ (cntInc q.rD (msg.tag, msg.payload)).2 = q.t + 1 ∧
+            (cntTouch q.eD (msg.tag, msg.payload)).2 < q.n - q.t
+        · rw [if_pos hq]
+          refine ⟨_, _, .idle, .readyCount wf hR hf0 _ (Or.inr ⟨rfl, ?_⟩), rfl⟩
+          rw [← cntInc_snd]; exact hq.2.1
+        · rw [if_neg hq]
+          by_cases hr : (cntInc q.rD (msg.tag, msg.payload)).2 = 2 * q.t + 1
+          · rw [if_pos hr]
+            have hr' : cnt q.rD (msg.tag, msg.payload) + 1 = 2 * q.t + 1 := by
+              rw [← cntInc_snd]; exact hr
+            cases hd : aGet q.dbar msg.tag with
+            | none =>
+              simp only [aGet_aSet_self, Option.getD_some]
+              cases hm : aGet q.mbar msg.tag with
+              | none =>
+                simp only []
+                by_cases hfoo : (0 : Int) ≠ msg.payload
+                · rw [if_pos hfoo]
+                  exact ⟨_, _, .idle, .readyDbar wf hR hf0 hr' hd _ hreq, rfl⟩
+                · rw [if_neg hfoo]
+                  simp only [ne_eq, not_not] at hfoo
+                  exact ⟨_, _, _, .readyDeliver wf hR hf0 hr' _ (Or.inl ⟨hd, rfl⟩)
+                    (Or.inl ⟨hm, hfoo.symm⟩), rfl⟩
+              | some mb =>
+                simp only []
+                by_cases hfoo : H mb ≠ msg.payload
+                · rw [if_pos hfoo]
+                  exact ⟨_, _, .idle, .readyDbar wf hR hf0 hr' hd _ hreq, rfl⟩
+                · rw [if_neg hfoo]
+                  simp only [ne_eq, not_not] at hfoo
+                  exact ⟨_, _, _, .readyDeliver wf hR hf0 hr' _ (Or.inl ⟨hd, rfl⟩)
+                    (Or.inr ⟨mb, hm, hfoo⟩), rfl⟩
+            | some db =>
+              simp only []
+              by_cases hdb : db ≠ msg.payload
+              · rw [if_pos hdb]
+                simp only []
+                exact ⟨_, _, .idle, .readyCount wf hR hf0 _ (Or.inl (by simp)), rfl⟩
+              · rw [if_neg hdb]
+                simp only [ne_eq, not_not] at hdb
+                subst hdb
+                simp only [hd, Option.getD_some]
+                cases hm : aGet q.mbar msg.tag with
+                | none =>
+                  simp only []
+                  by_cases hfoo : (0 : Int) ≠ msg.payload
+                  · rw [if_pos hfoo]
+                    exact ⟨_, _, .idle, .readyCount wf hR hf0 _ (Or.inl hreq), rfl⟩
+                  · rw [if_neg hfoo]
+                    simp only [ne_eq, not_not] at hfoo
+                    exact ⟨_, _, _, .readyDeliver wf hR hf0 hr' _ (Or.inr ⟨hd, rfl⟩)
+                      (Or.inl ⟨hm, hfoo.symm⟩), rfl⟩
+                | some mb =>
+                  simp only []
+                  by_cases hfoo : H mb ≠ msg.payload
+                  · rw [if_pos hfoo]
+                    exact ⟨_, _, .idle, .readyCount wf hR hf0 _ (Or.inl hreq), rfl⟩
+                  · rw [if_neg hfoo]
+                    simp only [ne_eq, not_not] at hfoo
+                    exact ⟨_, _, _, .readyDeliver wf hR hf0 hr' _ (Or.inr ⟨hd, rfl⟩)
+                      (Or.inr ⟨mb, hm, hfoo⟩), rfl⟩
+          · rw [if_neg hr]
+            exact ⟨_, _, .idle, .readyCount wf hR hf0 _ (Or.inl (by simp)), rfl⟩
+  rw [if_neg hR]
+  by_cases hQ : msg.action = rRequest
+  · rw [if_pos hQ]
+    by_cases hf : fHas q.request l msg.tag = true
+    · simp only [hf, Bool.not_true, Bool.false_eq_true, if_false]; exact minorRefl
+    · have hf0 : fHas q.request l msg.tag = false := by simpa using hf
+      simp only [hf0, Bool.not_false, if_true]
+      cases hm : aGet q.mbar msg.tag with
+      | none =>
+        simp only []
+        exact ⟨_, [], .idle, .minor _ [] (SameCore.mkRequest q _) (by simp), rfl⟩
+      | some mb =>
+        simp only []
+        refine ⟨_, _, .idle, .minor _ _ (SameCore.mkRequest q _) ?_, rfl⟩
+        intro x hx
+        simp only [List.mem_singleton] at hx
+        subst hx
+        exact Or.inr (Or.inl rfl)
+  rw [if_neg hQ]
+  by_cases hA : msg.action = rAnswer
+  · rw [if_pos hA]
+    by_cases hf : fHas q.answer l msg.tag = true
+    · simp only [hf, Bool.not_true, Bool.false_eq_true, if_false]; exact minorRefl
+    · have hf0 : fHas q.answer l msg.tag = false := by simpa using hf
+      simp only [hf0, Bool.not_false, if_true]
+      cases hd : aGet q.dbar msg.tag with
+      | none =>
+        simp only []
+        exact ⟨_, [], .idle, .minor _ [] (SameCore.mkAnswer q _) (by simp), rfl⟩
+      | some db =>
+        simp only []
+        have hmark : ∃ q' s o, Disp H q l msg q' s o ∧
+            (⟨{ q with answer := fIns q.answer l msg.tag }, sent0 ++ [], Outcome.idle⟩ : Result)
+              = ⟨q', sent0 ++ s, o⟩ :=
+          ⟨_, [], .idle, .minor _ [] (SameCore.mkAnswer q _) (by simp), rfl⟩
+        cases hm : aGet q.mbar msg.tag with
+        | none =>
+          simp only [Bool.false_eq_true, if_false]
+          by_cases hh : H msg.payload = db
+          · rw [if_pos hh]
+            exact ⟨_, _, _, .answerDeliver wf hA hf0 db hd (by simp [hm]) hh _ rfl, rfl⟩
+          · rw [if_neg hh]; exact hmark
+        | some mb =>
+          simp only [decide_eq_true_eq]
+          by_cases hk : H mb = db
+          · rw [if_pos hk]; exact hmark
+          · rw [if_neg hk]
+            by_cases hh : H msg.payload = db
+            · rw [if_pos hh]
+              refine ⟨_, _, _, .answerDeliver wf hA hf0 db hd ?_ hh _ rfl, rfl⟩
+              intro mb' hmb'
+              rw [hm] at hmb'
+              cases hmb'
+              exact hk
+            · rw [if_neg hh]; exact hmark
+  rw [if_neg hA]
+  by_cases hL : msg.action = lRetrieve
+  · rw [if_pos hL]
+    have hfail : ∃ q' s o, Disp H q l msg q' s o ∧
+        (⟨q, sent0 ++ [(l, (⟨msg.id, msg.sender, msg.seq, lFail, lFail⟩ : Msg))], Outcome.idle⟩
+          : Result) = ⟨q', sent0 ++ s, o⟩ := by
+      refine ⟨_, _, .idle, .minor _ _ (SameCore.refl q) ?_, rfl⟩
+      intro x hx
+      simp only [List.mem_singleton] at hx
+      subst hx
+      exact Or.inr (Or.inr rfl)
+    cases hm : aGet q.mbar msg.tag with
+    | none => simp only []; exact hfail
+    | some mb =>
+      simp only []
+      by_cases hc : (q.fifo = true ∧ msg.seq < q.dS msg.sender.toNat) ∨ ¬q.fifo = true
+      · rw [if_pos hc]
+        refine ⟨_, _, .idle, .retrieveAns wf hL mb hm ?_, rfl⟩
+        rcases hc with hc | hc
+        · exact Or.inl hc
+        · exact Or.inr (by simpa using hc)
+      · rw [if_neg hc]; exact hfail
+  rw [if_neg hL]
+  by_cases hD : msg.action = lDeliver
+  · rw [if_pos hD]
+    by_cases hf : fHas q.deliver l msg.tag = true
+    · simp only [hf, Bool.not_true, Bool.false_eq_true, if_false]; exact minorRefl
+    · have hf0 : fHas q.deliver l msg.tag = false := by simpa using hf
+      simp only [hf0, Bool.not_false, if_true]
+      by_cases hr : fHas q.retrieve l msg.tag = true
+      · simp only [hr, Bool.not_true, Bool.false_eq_true, if_false]
+        change ∃ q' s o, Disp H q l msg q' s o ∧
+          (if deliverNum (ldelPost q l msg) msg.tag < q.n - q.t then
+            (⟨ldelPost q l msg, sent0 ++ [], Outcome.idle⟩ : Result)
+           else match agreeFind (ldelPost q l msg) msg.tag (ldelBuf q l msg) (List.range q.n) with
+            | none => ⟨ldelPost q l msg, sent0 ++ [], Outcome.idle⟩
+            | some i =>
+              ⟨(deliverOrBuffer { ldelPost q l msg with
+                  mbar := aSet q.mbar msg.tag ((ldelBuf q l msg).getD i 0) } msg []).party,
+               sent0 ++ (deliverOrBuffer { ldelPost q l msg with
+                  mbar := aSet q.mbar msg.tag ((ldelBuf q l msg).getD i 0) } msg []).sent,
+               (deliverOrBuffer { ldelPost q l msg with
+                  mbar := aSet q.mbar msg.tag ((ldelBuf q l msg).getD i 0) } msg []).out⟩)
+            = ⟨q', sent0 ++ s, o⟩
+        by_cases hn : deliverNum (ldelPost q l msg) msg.tag < q.n - q.t
+        · rw [if_pos hn]
+          exact ⟨_, _, .idle, .ldelMark wf hD hf0 hr, rfl⟩
+        · rw [if_neg hn]
+          cases hi : agreeFind (ldelPost q l msg) msg.tag (ldelBuf q l msg) (List.range q.n) with
+          | none => exact ⟨_, _, .idle, .ldelMark wf hD hf0 hr, rfl⟩
+          | some i => exact ⟨_, _, _, .ldelDeliver wf hD hf0 hr i hi _ rfl, rfl⟩
+      · have hr0 : fHas q.retrieve l msg.tag = false := by simpa using hr
+        simp only [hr0, Bool.not_false, if_true]; exact minorRefl
+  rw [if_neg hD]
+  exfalso
+  simp only [rSend, rEcho, rReady, rRequest, rAnswer, lRetrieve, lDeliver] at *
+  omega
+
+
+/-! ## 3. `deliverOrBuffer`, `phaseBuffer`, `step` -/
+
+theorem dob_cases (p : Party) (msg : Msg) :
+    (msg.id = p.ID ∧ (p.fifo = true → msg.seq = p.dS msg.sender.toNat) ∧
+      aGet p.mbar msg.tag = none ∧ deliverOrBuffer p msg [] = ⟨p, [], .threw⟩) ∨
+    (∃ m, msg.id = p.ID ∧ (p.fifo = true → msg.seq = p.dS msg.sender.toNat) ∧
+      aGet p.mbar msg.tag = some m ∧
+      deliverOrBuffer p msg [] =
+        ⟨{ p with deliverS := p.deliverS.set msg.sender.toNat (p.dS msg.sender.toNat + 1) }, [],
+         .delivered msg.sender.toNat m⟩) ∨
+    ((msg.id ≠ p.ID ∨ (p.fifo = true ∧ msg.seq ≠ p.dS msg.sender.toNat)) ∧
+      deliverOrBuffer p msg [] = ⟨{ p with deliverBuf := p.deliverBuf ++ [msg] }, [], .idle⟩) := by
+  unfold deliverOrBuffer
+  simp only []
+  by_cases hc : msg.id = p.ID ∧ (p.fifo = true ∧ msg.seq = p.dS msg.sender.toNat ∨ ¬p.fifo = true)
+  · rw [if_pos hc]
+    have h2 : p.fifo = true → msg.seq = p.dS msg.sender.toNat := by
+      intro hf
+      rcases hc.2 with h | h
+      · exact h.2
+      · exact absurd hf h
+    cases hm : aGet p.mbar msg.tag with
+    | none => exact Or.inl ⟨hc.1, h2, rfl, rfl⟩
+    | some m => exact Or.inr (Or.inl ⟨m, hc.1, h2, rfl, rfl⟩)
+  · rw [if_neg hc]
+    refine Or.inr (Or.inr ⟨?_, rfl⟩)
+    by_cases hid : msg.id = p.ID
+    · right
+      by_cases hf : p.fifo = true
+      · refine ⟨hf, fun hs => hc ⟨hid, Or.inl ⟨hf, hs⟩⟩⟩
+      · exact absurd ⟨hid, Or.inr hf⟩ hc
+    · exact Or.inl hid
+
+theorem findFirst_some {α} (q : α → Bool) : ∀ (l : List α) (e : α) (rest : List α),
+    findFirst q l = some (e, rest) → e ∈ l ∧ q e = true ∧ ∀ x ∈ rest, x ∈ l := by
+  intro l
+  induction l with
+  | nil => intro e rest h; simp [findFirst] at h
+  | cons x xs ih =>
+    intro e rest h
+    unfold findFirst at h
+    by_cases hq : q x = true
+    · rw [if_pos hq] at h
+      simp only [Option.some.injEq, Prod.mk.injEq] at h
+      obtain ⟨rfl, rfl⟩ := h
+      exact ⟨List.mem_cons_self, hq, fun y hy => List.mem_cons_of_mem _ hy⟩
+    · rw [if_neg hq] at h
+      cases hr : findFirst q xs with
+      | none => rw [hr] at h; simp at h
+      | some yr =>
+        obtain ⟨y, r⟩ := yr
+        rw [hr] at h
+        simp only [Option.some.injEq, Prod.mk.injEq] at h
+        obtain ⟨rfl, rfl⟩ := h
+        obtain ⟨h1, h2, h3⟩ := ih y r hr
+        refine ⟨List.mem_cons_of_mem _ h1, h2, ?_⟩
+        intro z hz
+        rcases List.mem_cons.1 hz with rfl | hz
+        · exact List.mem_cons_self
+        · exact List.mem_cons_of_mem _ (h3 z hz)
+
+/-- every message produced by the out-of-order handler is an l-retrieve -/
+def RetrOk (acc : RetrAcc) : Prop := ∀ x ∈ acc.sent, x.2.action = lRetrieve
+
+theorem retrInner_ok (j : Nat) (dF : Filter) (m : Msg) (hm : m.action = lRetrieve)
+    (acc : RetrAcc) (i : Nat) (h : RetrOk acc) : RetrOk (retrInner j dF m acc i) := by
+  unfold retrInner
+  split_ifs
+  · exact h
+  · exact h
+  · exact h
+  · intro x hx
+    simp only [List.mem_append, List.mem_singleton] at hx
+    rcases hx with hx | rfl
+    · exact h x hx
+    · exact hm
+
+theorem foldl_inv {α β} (P : β → Prop) (f : β → α → β) (hf : ∀ b a, P b → P (f b a)) :
+    ∀ (l : List α) (b : β), P b → P (l.foldl f b) := by
+  intro l
+  induction l with
+  | nil => intro b hb; exact hb
+  | cons a l ih => intro b hb; exact ih _ (hf b a hb)
+
+theorem retrWhile_ok (n j : Nat) (dF : Filter) (e : Msg) (minS : Int) :
+    ∀ (fuel : Nat) (foo : Int) (acc : RetrAcc), RetrOk acc →
+      RetrOk (retrWhile n j dF e minS fuel foo acc) := by
+  intro fuel
+  induction fuel with
+  | zero => intro foo acc h; exact h
+  | succ f ih =>
+    intro foo acc h
+    unfold retrWhile
+    split_ifs
+    · exact ih _ _ (foldl_inv RetrOk _ (fun b a hb => retrInner_ok j dF _ rfl b a hb) _ _ h)
+    · exact h
+
+theorem retrOuter_ok (p : Party) (ds : List Int) (sc : Scan) (acc : RetrAcc) (who : Nat)
+    (h : RetrOk acc) : RetrOk (retrOuter p ds sc acc who) := by
+  unfold retrOuter
+  split
+  · exact h
+  · exact retrWhile_ok _ _ _ _ _ _ _ _ h
+
+
+/-- the party after the housekeeping part of `phaseBuffer` (`fifo_skip = 0`) -/
+def hkParty (p : Party) (R : Filter) : Party :=
+  { p with retrieve := R, deliverBuf := p.deliverBuf.filter fun e => !obsolete p e }
+
+theorem phaseBuffer_cases (p : Party) (hskip : p.fifoSkip = 0) :
+    (∃ e rest, findFirst (deliverable p) p.deliverBuf = some (e, rest) ∧
+        aGet p.mbar e.tag = none ∧ phaseBuffer p = .inl ⟨p, [], .threw⟩) ∨
+    (∃ e rest m, findFirst (deliverable p) p.deliverBuf = some (e, rest) ∧
+        aGet p.mbar e.tag = some m ∧
+        phaseBuffer p = .inl ⟨{ p with
+          deliverS := p.deliverS.set e.sender.toNat (p.dS e.sender.toNat + 1),
+          deliverBuf := rest }, [], .delivered e.sender.toNat m⟩) ∨
+    (findFirst (deliverable p) p.deliverBuf = none ∧
+      ∃ R s, phaseBuffer p = .inr (hkParty p R, s) ∧ (p.fifo = false → R = p.retrieve) ∧
+        ∀ x ∈ s, x.2.action = lRetrieve) := by
+  unfold phaseBuffer
+  cases hff : findFirst (deliverable p) p.deliverBuf with
+  | some er =>
+    obtain ⟨e, rest⟩ := er
+    simp only []
+    cases hm : aGet p.mbar e.tag with
+    | none => exact Or.inl ⟨e, rest, rfl, hm, rfl⟩
+    | some m => exact Or.inr (Or.inl ⟨e, rest, m, rfl, hm, rfl⟩)
+  | none =>
+    simp only []
+    refine Or.inr (Or.inr ⟨trivial, ?_⟩)
+    have h1 : ¬(p.fifo = true ∧ p.fifoSkip > 0) := by omega
+    rw [if_neg h1]
+    simp only []
+    by_cases hf : p.fifo = true ∧ p.fifoSkip = 0
+    · rw [if_pos hf]
+      refine ⟨_, _, rfl, ?_, ?_⟩
+      · intro h; rw [hf.1] at h; cases h
+      · exact foldl_inv RetrOk _ (fun b a hb => retrOuter_ok _ _ _ b a hb) _ _
+          (by intro x hx; simp at hx)
+    · rw [if_neg hf]
+      refine ⟨_, _, rfl, fun _ => rfl, ?_⟩
+      intro x hx; simp at hx
+
+
+theorem takeBuffered_replicate (n : Nat) (pi : List Nat) :
+    takeBuffered (List.replicate n []) pi = none := by
+  induction pi with
+  | nil => rfl
+  | cons i rest ih =>
+    unfold takeBuffered
+    have : (List.replicate n ([] : List Int)).getD i [] = [] := by
+      simp [List.getD_eq_getElem?_getD, List.getElem?_replicate]
+      split_ifs <;> rfl
+    rw [this]
+    exact ih
+
+/-- the message whose processing a `step` is about: the buffered message that is let out of
+    `deliver_buf`, else the message taken from `buf_msg`, else the received one -/
+def stepMsg (p : Party) (pi : List Nat) (inp : Option (Nat × Msg)) : Option Msg :=
+  match findFirst (deliverable p) p.deliverBuf with
+  | some (e, _) => some e
+  | none =>
+    match takeBuffered p.bufMsg pi with
+    | some (_, msg, _) => some msg
+    | none => inp.map (·.2)
+
+/-- the tag a `step` delivers, when it delivers (`Outcome.delivered` carries only the sender) -/
+def deliveredTag (p : Party) (pi : List Nat) (inp : Option (Nat × Msg)) : Tag :=
+  ((stepMsg p pi inp).map Msg.tag).getD default
+
+/-- all the ways one `step` can go (`fifo_skip = 0`, nothing queued in `buf_msg`) -/
+theorem step_cases (H : Int → Int) (T : Tag → Int) (p : Party) (pi : List Nat)
+    (inp : Option (Nat × Msg)) (hskip : p.fifoSkip = 0) (hbuf : p.bufMsg = List.replicate p.n []) :
+    (∃ e rest, findFirst (deliverable p) p.deliverBuf = some (e, rest) ∧
+        aGet p.mbar e.tag = none ∧ step H T p pi inp = ⟨p, [], .threw⟩) ∨
+    (∃ e rest m, findFirst (deliverable p) p.deliverBuf = some (e, rest) ∧
+        aGet p.mbar e.tag = some m ∧ deliveredTag p pi inp = e.tag ∧
+        step H T p pi inp = ⟨{ p with
+          deliverS := p.deliverS.set e.sender.toNat (p.dS e.sender.toNat + 1),
+          deliverBuf := rest }, [], .delivered e.sender.toNat m⟩) ∨
+    (findFirst (deliverable p) p.deliverBuf = none ∧
+      ∃ R s0, (p.fifo = false → R = p.retrieve) ∧ (∀ x ∈ s0, x.2.action = lRetrieve) ∧
+        ((inp = none ∧ step H T p pi inp = ⟨hkParty p R, s0, .idle⟩) ∨
+         (∃ l msg q' s o, inp = some (l, msg) ∧ deliveredTag p pi inp = msg.tag ∧
+            Disp H (hkParty p R) l msg q' s o ∧
+            step H T p pi inp = ⟨q', s0 ++ s, o⟩))) := by
+  rcases phaseBuffer_cases p hskip with ⟨e, rest, hff, hm, hpb⟩ | ⟨e, rest, m, hff, hm, hpb⟩ |
+    ⟨hff, R, s0, hpb, hR, hs0⟩
+  · left
+    refine ⟨e, rest, hff, hm, ?_⟩
+    unfold step; rw [hpb]
+  · right; left
+    refine ⟨e, rest, m, hff, hm, ?_, ?_⟩
+    · unfold deliveredTag stepMsg; rw [hff]; rfl
+    · unfold step; rw [hpb]
+  · right; right
+    refine ⟨hff, R, s0, hR, hs0, ?_⟩
+    have htb : takeBuffered (hkParty p R).bufMsg pi = none := by
+      show takeBuffered p.bufMsg pi = none
+      rw [hbuf]; exact takeBuffered_replicate _ _
+    have htb' : takeBuffered p.bufMsg pi = none := htb
+    cases inp with
+    | none =>
+      left
+      refine ⟨rfl, ?_⟩
+      unfold step; rw [hpb]; simp only []; rw [htb]
+    | some lm =>
+      obtain ⟨l, msg⟩ := lm
+      right
+      obtain ⟨q', s, o, hD, hEq⟩ := dispatch_cases H T (hkParty p R) s0 l msg
+      refine ⟨l, msg, q', s, o, rfl, ?_, hD, ?_⟩
+      · unfold deliveredTag stepMsg; rw [hff]; simp only []; rw [htb']; rfl
+      · unfold step; rw [hpb]; simp only []; rw [htb]; exact hEq
+
+
+/-! ## 4. the system model
+
+  `n` parties; the parties in `byz` (at most `t`, all `< n`… see `Event.Valid`) are Byzantine and
+  are not modelled at all: the adversary may hand ANY message to an honest party under the link
+  identity of a Byzantine party.  Honest parties run `step` / `broadcast` of the model on one
+  channel `ID` in one mode.  The network may duplicate, reorder and lose messages: an honest party
+  may be handed any message that some honest party ever sent to it, any number of times. -/
+
+structure Cfg where
+  n : Nat
+  t : Nat
+  byz : Finset Nat
+  ID : Int
+  fifo : Bool
+
+def Cfg.honest (c : Cfg) (i : Nat) : Prop := i < c.n ∧ i ∉ c.byz
+
+instance (c : Cfg) (i : Nat) : Decidable (c.honest i) := by unfold Cfg.honest; infer_instance
+
+structure Sys where
+  /-- states of the parties (only those of honest parties are ever touched) -/
+  st : Nat → Party
+  /-- every message an honest party ever sent: (source, destination, message) -/
+  log : List (Nat × Nat × Msg)
+  /-- honest broadcasts (party, tag, value) -/
+  bc : List (Nat × Tag × Int)
+  /-- honest deliveries (party, tag, value) -/
+  dl : List (Nat × Tag × Int)
+
+def initParty (c : Cfg) (i : Nat) : Party :=
+  { Party.init c.n c.t i 0 with ID := c.ID, fifo := c.fifo }
+
+def Sys.init (c : Cfg) : Sys := ⟨fun i => initParty c i, [], [], []⟩
+
+inductive Event where
+  /-- party `i` runs `Deliver` and the link layer hands over `msg` from link `src` -/
+  | recv (i src : Nat) (msg : Msg) (pi : List Nat)
+  /-- party `i` runs `Deliver` and nothing arrives -/
+  | tick (i : Nat) (pi : List Nat)
+  /-- party `i` broadcasts `v` (`rnd`: the random sequence number of non-FIFO mode) -/
+  | bcast (i : Nat) (v rnd : Int)
+
+def upd (st : Nat → Party) (i : Nat) (p : Party) : Nat → Party :=
+  fun k => if k = i then p else st k
+
+def tagMsgs (i : Nat) (s : Sent) : List (Nat × Nat × Msg) := s.map fun x => (i, x.1, x.2)
+
+def stepSys (H : Int → Int) (T : Tag → Int) (s : Sys) (i : Nat) (pi : List Nat)
+    (inp : Option (Nat × Msg)) : Sys :=
+  let r := step H T (s.st i) pi inp
+  { st := upd s.st i r.party
+    log := s.log ++ tagMsgs i r.sent
+    bc := s.bc
+    dl := match r.out with
+      | .delivered _ m => s.dl ++ [(i, deliveredTag (s.st i) pi inp, m)]
+      | _ => s.dl }
+
+def Sys.apply (H : Int → Int) (T : Tag → Int) (s : Sys) : Event → Sys
+  | .recv i src msg pi => stepSys H T s i pi (some (src, msg))
+  | .tick i pi => stepSys H T s i pi none
+  | .bcast i v rnd =>
+    let r := broadcast (s.st i) v rnd
+    { st := upd s.st i r.1
+      log := s.log ++ tagMsgs i r.2
+      bc := s.bc ++ [(i, ⟨(s.st i).ID, (s.st i).j, r.1.s⟩, v)]
+      dl := s.dl }
+
+/-- which events may happen: only honest parties act; a received message comes from a link
+    `src < n` and either `src` is Byzantine (then the message is arbitrary) or the message was
+    sent by `src` to `i` earlier -/
+def Event.Valid (c : Cfg) (s : Sys) : Event → Prop
+  | .recv i src msg _ => c.honest i ∧ src < c.n ∧ (src ∈ c.byz ∨ (src, i, msg) ∈ s.log)
+  | .tick i _ => c.honest i
+  | .bcast i _ _ => c.honest i
+
+instance (c : Cfg) (s : Sys) (ev : Event) : Decidable (ev.Valid c s) := by
+  cases ev <;> (unfold Event.Valid; infer_instance)
+
+inductive Reach (H : Int → Int) (T : Tag → Int) (c : Cfg) : Sys → Prop
+  | init : Reach H T c (Sys.init c)
+  | step (s : Sys) (ev : Event) : Reach H T c s → ev.Valid c s → Reach H T c (s.apply H T ev)
+
+/-- executable version: run an event list from the initial state, `none` if an event is invalid -/
+def runFrom (H : Int → Int) (T : Tag → Int) (c : Cfg) (s : Sys) : List Event → Option Sys
+  | [] => some s
+  | ev :: rest => if ev.Valid c s then runFrom H T c (s.apply H T ev) rest else none
+
+def run (H : Int → Int) (T : Tag → Int) (c : Cfg) (evs : List Event) : Option Sys :=
+  runFrom H T c (Sys.init c) evs
+
+theorem runFrom_reach (H : Int → Int) (T : Tag → Int) (c : Cfg) :
+    ∀ (evs : List Event) (s s' : Sys), Reach H T c s → runFrom H T c s evs = some s' →
+      Reach H T c s' := by
+  intro evs
+  induction evs with
+  | nil => intro s s' hr h; simp only [runFrom, Option.some.injEq] at h; exact h ▸ hr
+  | cons ev rest ih =>
+    intro s s' hr h
+    unfold runFrom at h
+    by_cases hv : ev.Valid c s
+    · rw [if_pos hv] at h
+      exact ih _ _ (Reach.step s ev hr hv) h
+    · rw [if_neg hv] at h; cases h
+
+theorem run_reach (H : Int → Int) (T : Tag → Int) (c : Cfg) (evs : List Event) (s : Sys)
+    (h : run H T c evs = some s) : Reach H T c s :=
+  runFrom_reach H T c evs _ s Reach.init h
 
 end Tmcg.Rbc
